@@ -235,7 +235,14 @@ def run_shard(rec, tier, seed, shard, nshards):
             # ------------------------------------------------ calculate_mse, combinatoric space, correlation
             if ci % 3 == 0:
                 arity = int(rng.choice([1, 2, 2]))
-                kw = gen.realistic_screen_kwargs(rng, n_samples=(2, 5), n_drugs=(2, 3), n_doses=(1, 2), n_rows=(6, 24), n_plates=(1, 3), observed="all", arity=arity, p_double_control=0.0)
+                ctrl = str(rng.choice(["", "", "DMSO"]))
+                kw = gen.realistic_screen_kwargs(rng, n_samples=(2, 5), n_drugs=(2, 3), n_doses=(1, 2), n_rows=(6, 24), n_plates=(1, 3), observed="all", arity=arity, p_double_control=0.0, control=ctrl)
+                if ctrl:
+                    # a named control is a control whatever dose is recorded for it
+                    hit = np.argwhere(kw["treatment_names"] == ctrl)
+                    for r_, c_ in hit[rng.random(len(hit)) < 0.5]:
+                        kw["treatment_doses"][r_, c_] = 0.5
+                    rec.count("correlation_cases_named_control")
                 screen = Screen(**kw)
                 variant = str(rng.choice(["whole", "superset-mapping", "view"]))
                 if variant != "whole" and screen.size >= 4:
